@@ -1,10 +1,12 @@
 /-
 Model of `Cell.create_unbranched_segment_group_branches` (neuroml/nml/helper_methods.py, copy in
-neuroml/nml/nml.py class Cell) with the private recursive `__sectionise`, `add_unbranched_segment_group` /
+neuroml/nml/nml.py class Cell) with the private `__sectionise` (iterative, explicit stack of branches:
+fixes/C16-iterative-sectionise.patch), `add_unbranched_segment_group` /
 `add_segment_group` / `get_segment_group`, `get_segment_adjacency_list`, `get_segment`, `get_actual_proximal`,
 `reorder_segment_groups` and the part of `optimise_segment_groups` that C16 depends on.
 Mathlib-free, executable, bug-for-bug (it says what the code DOES, including the reuse of an existing group
-with a generated name, the stale `adjacency_list` cache and the interpreter's recursion limit).
+with a generated name, the stale `adjacency_list` cache and the interpreter's recursion limit, which after the
+fix only `get_actual_proximal` can hit).
 
 Python -> Lean
 * a cell is a value `St = (segs, groups)`; every mutation returns a new value.  A group object reference is
@@ -12,10 +14,11 @@ Python -> Lean
 * coordinates / `fraction_along` are `Rat` (the harness only feeds dyadic values, on which the float
   arithmetic of `get_actual_proximal` is exact).
 * `lim` = number of Python frames still available to calls made from the body of
-  `create_unbranched_segment_group_branches`; every nested `__sectionise` and every nested
-  `get_actual_proximal` takes one; running out is `RecursionError`.
-* `fuel` is a model artefact that makes `sectD` structurally recursive on arbitrary (even cyclic) adjacency
-  dictionaries; `Proofs/Section.lean` shows `need t` fuel suffices on a tree.
+  `create_unbranched_segment_group_branches`; `__sectionise` takes one (it no longer calls itself) and every
+  nested `get_actual_proximal` takes one; running out is `RecursionError`.
+* `fuel` is a model artefact that makes `walk` / `sectLoop` structurally recursive on arbitrary (even cyclic)
+  adjacency dictionaries; `Proofs/Section.lean` shows that `size t + 1` (hence `segs.length + 2`) suffices on a
+  tree.
 -/
 namespace NmlVerif.Section
 
@@ -145,39 +148,70 @@ def addMemberG (s : Nat) (g : Group) : Group :=
 
 def St.addMember (st : St) (gi s : Nat) : St := { st with groups := modifyAt st.groups gi (addMemberG s) }
 
-/-! ### `__sectionise` -/
+/-! ### `__sectionise` (iterative: the branches still to be processed are kept on an explicit stack)
 
-mutual
-  /-- `__sectionise(root, seg_group = groups[gi], morph_tree = adj)`; the inner `while` (single child) is the
-      `[c]` case and does not take a frame -/
-  def sectD (adj : Adj) : Nat → Nat → St → Nat → Nat → Except Err St
-    | 0, _, _, _, _ => .error .fuel
-    | fuel + 1, lim, st, root, gi =>
-      match lookup adj root with
-      | none => .ok (st.addMember gi root)                      -- KeyError: leaf
-      | some [] => .ok st                                       -- empty child list (hand-made cache): nothing added
-      | some [c] => sectD adj fuel lim (st.addMember gi root) c gi
-      | some (c1 :: c2 :: cs) => sectKids adj fuel lim (st.addMember gi root) (c1 :: c2 :: cs)
-  /-- `for child in children:` make the proximal explicit, open a group, recurse -/
-  def sectKids (adj : Adj) : Nat → Nat → St → List Nat → Except Err St
-    | 0, _, _, _ => .error .fuel
-    | _ + 1, _, st, [] => .ok st
-    | fuel + 1, lim, st, c :: cs =>
-      match getSegment st.segs c with
-      | none => .error .noSegment
-      | some s =>
-        match actualProximal st.segs lim s.id with
-        | .error e => .error e
-        | .ok p =>
-          let segs' := setProx st.segs c p
-          let (gs', gi') := addGroup st.groups (genName (st.groups.length - 1) s.id)
-          match lim with
-          | 0 => .error .recursion
-          | lim' + 1 =>
-            match sectD adj fuel lim' ⟨segs', gs'⟩ c gi' with
-            | .error e => .error e
-            | .ok st' => sectKids adj fuel lim st' cs
-end
+```
+todo = [(root_segment_id, seg_group)]
+while todo:
+    root_segment_id, seg_group = todo.pop()
+    if seg_group is None:                                   -- `openBranch`
+        seg = self.get_segment(root_segment_id)
+        seg.proximal = self.get_actual_proximal(seg.id)
+        group_name = f"seg_group_{len(self.morphology.segment_groups) - 1}_seg_{seg.id}"
+        seg_group = self.add_unbranched_segment_group(group_name)
+    try:                                                    -- `walk`
+        children = morph_tree[root_segment_id]
+        while len(children) == 1:
+            seg_group.add("Member", segments=root_segment_id)
+            root_segment_id = children[0]
+            children = morph_tree[root_segment_id]
+        if len(children) > 1:
+            seg_group.add("Member", segments=root_segment_id)
+            for child in reversed(children):
+                todo.append((child, None))
+    except KeyError:
+        seg_group.add("Member", segments=root_segment_id)
+```
+The Python stack grows at the END of `todo`; the model keeps the top of the stack at the HEAD of the list, so
+pushing the children in reverse at the end is prepending them in order. -/
+
+/-- the `try:` block for the branch starting at `x` whose group is `groups[gi]`: walk down while there is exactly
+    one child; returns the new cell and the children that start new branches (none at a leaf) -/
+def walk (adj : Adj) : Nat → St → Nat → Nat → Except Err (St × List Nat)
+  | 0, _, _, _ => .error .fuel
+  | fuel + 1, st, x, gi =>
+    match lookup adj x with
+    | none => .ok (st.addMember gi x, [])                     -- KeyError: leaf
+    | some [] => .ok (st, [])                                  -- empty child list (hand-made cache): nothing added
+    | some [c] => walk adj fuel (st.addMember gi x) c gi
+    | some (c1 :: c2 :: cs) => .ok (st.addMember gi x, c1 :: c2 :: cs)
+
+/-- `if seg_group is None:` the first segment `c` of a new branch: make its proximal explicit (with `lim` frames
+    for `get_actual_proximal`), open its group -/
+def openBranch (st : St) (lim c : Nat) : Except Err (St × Nat) :=
+  match getSegment st.segs c with
+  | none => .error .noSegment
+  | some s =>
+    match actualProximal st.segs lim s.id with
+    | .error e => .error e
+    | .ok p =>
+      let segs' := setProx st.segs c p
+      let (gs', gi') := addGroup st.groups (genName (st.groups.length - 1) s.id)
+      .ok (⟨segs', gs'⟩, gi')
+
+/-- `while todo:`; a stack entry is (first segment of the branch, index of its group if it exists already) -/
+def sectLoop (adj : Adj) : Nat → Nat → St → List (Nat × Option Nat) → Except Err St
+  | _, _, st, [] => .ok st
+  | 0, _, _, _ :: _ => .error .fuel
+  | fuel + 1, lim, st, (x, og) :: todo =>
+    match (match og with
+      | some gi => (.ok (st, gi) : Except Err (St × Nat))
+      | none => openBranch st lim x) with
+    | .error e => .error e
+    | .ok (st1, gi) =>
+      match walk adj fuel st1 x gi with
+      | .error e => .error e
+      | .ok (st2, kids) => sectLoop adj fuel lim st2 (kids.map (fun c => (c, none)) ++ todo)
 
 /-! ### `reorder_segment_groups` -/
 
@@ -247,7 +281,7 @@ def sectionPhase (cell : St) (cache : Option Adj) (root lim fuel : Nat) : Except
       let (gs, gi) := addGroup cell.groups (genName cell.groups.length s.id)
       match lim with
       | 0 => .error .recursion
-      | lim' + 1 => sectD adj fuel lim' ⟨segs', gs⟩ root gi
+      | lim' + 1 => sectLoop adj fuel lim' ⟨segs', gs⟩ [(root, some gi)]
 
 def run (oi : List Group → Group → Group) (cell : St) (cache : Option Adj) (root : Nat)
     (reorder optimise : Bool) (lim fuel : Nat) : Except Err St :=
@@ -260,6 +294,61 @@ def run (oi : List Group → Group → Group) (cell : St) (cache : Option Adj) (
       | .error e => .error e
       | .ok gs2 => .ok ⟨st.segs, gs2⟩
     else .ok ⟨st.segs, gs1⟩
+
+/-! ### the cell OBJECT over its life: morphology + the cached adjacency list (`cell.adjacency_list`)
+
+`create_unbranched_segment_group_branches` reads `getattr(self, "adjacency_list", None)`, computes and STORES the
+adjacency list when there is none (`get_segment_adjacency_list` assigns `self.adjacency_list`), and never
+modifies the dictionary.  So a call leaves a cache behind, later calls (and `get_graph`) reuse it, and only
+`get_segment_adjacency_list()` brings it up to date after the morphology has grown. -/
+
+structure CellS where
+  segs : List Seg
+  groups : List Group
+  /-- `cell.adjacency_list` (`none`: the attribute does not exist) -/
+  cache : Option Adj
+deriving DecidableEq, Repr, Inhabited
+
+def CellS.st (c : CellS) : St := ⟨c.segs, c.groups⟩
+
+/-- `get_segment_adjacency_list()`: recomputed and stored, every time -/
+def CellS.refresh (c : CellS) : CellS := { c with cache := some (adjacency c.segs) }
+
+/-- `getattr(self, "adjacency_list", None)`, computed and stored only if absent (first lines of
+    `create_unbranched_segment_group_branches` and of `get_graph`) -/
+def CellS.ensure (c : CellS) : CellS := { c with cache := some (c.cache.getD (adjacency c.segs)) }
+
+/-- one call of `create_unbranched_segment_group_branches` on the cell object: the adjacency list it used stays
+    cached, unmodified -/
+def call (oi : List Group → Group → Group) (c : CellS) (root : Nat) (reorder optimise : Bool) (lim fuel : Nat) :
+    Except Err CellS :=
+  match run oi c.st c.cache root reorder optimise lim fuel with
+  | .error e => .error e
+  | .ok st => .ok ⟨st.segs, st.groups, c.ensure.cache⟩
+
+/-- what can happen to a cell object between / around sectioning calls (as far as C16 is concerned) -/
+inductive Op where
+  | sect (root : Nat) (reorder optimise : Bool)   -- create_unbranched_segment_group_branches(root, ...)
+  | refresh                                        -- get_segment_adjacency_list()
+  | ensure                                         -- get_graph() (reads the cache, fills it if absent)
+  | append (s : Seg)                               -- morphology.segments.append(s): the cache is NOT updated
+  | addGroup (g : Group)                           -- morphology.segment_groups.append(g)
+deriving Repr, Inhabited
+
+def step (oi : List Group → Group → Group) (lim fuel : Nat) (c : CellS) : Op → Except Err CellS
+  | .sect root reorder optimise => call oi c root reorder optimise lim fuel
+  | .refresh => .ok c.refresh
+  | .ensure => .ok c.ensure
+  | .append s => .ok { c with segs := c.segs ++ [s] }
+  | .addGroup g => .ok { c with groups := c.groups ++ [g] }
+
+/-- a history: the operations in order, stopping at the first exception -/
+def runOps (oi : List Group → Group → Group) (lim fuel : Nat) : CellS → List Op → Except Err CellS
+  | c, [] => .ok c
+  | c, op :: ops =>
+    match step oi lim fuel c op with
+    | .error e => .error e
+    | .ok c' => runOps oi lim fuel c' ops
 
 /-! ### the tree an adjacency dictionary unfolds to (used by the driver to evaluate theorem hypotheses) -/
 
@@ -299,7 +388,17 @@ mutual
 end
 
 mutual
-  /-- number of nested `__sectionise` frames below the first one -/
+  /-- number of nodes -/
+  def size : Tree → Nat
+    | .node _ ks => 1 + sizeL ks
+  def sizeL : List Tree → Nat
+    | [] => 0
+    | t :: ts => size t + sizeL ts
+end
+
+mutual
+  /-- number of branch points nested on a root-to-leaf path (the recursion depth of the sectioniser before
+      fixes/C16-iterative-sectionise.patch; irrelevant now, reported by the driver for the input distribution) -/
   def nest : Tree → Nat
     | .node _ [] => 0
     | .node _ [k] => nest k
@@ -307,17 +406,6 @@ mutual
   def nestL : List Tree → Nat
     | [] => 0
     | t :: ts => max (nest t) (nestL ts)
-end
-
-mutual
-  /-- fuel that `sectD` needs on a tree -/
-  def need : Tree → Nat
-    | .node _ [] => 1
-    | .node _ [k] => 1 + need k
-    | .node _ (k1 :: k2 :: ks) => 1 + needL (k1 :: k2 :: ks)
-  def needL : List Tree → Nat
-    | [] => 1
-    | t :: ts => 1 + need t + needL ts
 end
 
 /-! ### specification-level functions on the tree (not part of the model of the code)
@@ -329,6 +417,12 @@ def first : Tree → List Nat
   | .node i [] => [i]
   | .node i [k] => i :: first k
   | .node i (_ :: _ :: _) => [i]
+
+/-- the subtrees hanging off the end of the chain `first t` (none at a leaf, at least two at a branch point) -/
+def endKids : Tree → List Tree
+  | .node _ [] => []
+  | .node _ [k] => endKids k
+  | .node _ (k1 :: k2 :: ks) => k1 :: k2 :: ks
 
 mutual
   def rest : Tree → List (Nat × List Nat)
@@ -359,18 +453,21 @@ def isOk {ε α : Type} : Except ε α → Bool
   | .ok _ => true
   | .error _ => false
 
-/-- decidable form of the hypotheses of the C16 theorems (`Proofs/Section.lean: hypB_sound`) -/
+/-- decidable form of the hypotheses of the C16 theorems (`Proofs/Section.lean: hypB_sound`): evaluated by the
+    driver on every generated case.  Only the root and the first segment of every later chain need a resolvable
+    proximal (within `lim - 1` frames: `get_actual_proximal` is called from `__sectionise`). -/
 def hypB (cell : St) (cache : Option Adj) (root lim fuel : Nat) : Bool :=
-  cache.isNone && nodupB (cell.segs.map (·.id)) && (getSegment cell.segs root).isSome &&
+  (match cache with | none => true | some a => decide (a = adjacency cell.segs)) &&
+  nodupB (cell.segs.map (·.id)) && (getSegment cell.segs root).isSome &&
   match buildTree (adjacency cell.segs) (cell.segs.length + 1) root with
   | none => false
   | some t =>
-    nodupB (preorder t) && decide (nest t + 1 ≤ lim) && decide (need t ≤ fuel) &&
-    (preorder t).all (fun x => isOk (actualProximal cell.segs (lim - nest t - 1) x)) &&
+    nodupB (preorder t) && decide (1 ≤ lim) && decide (size t + 1 ≤ fuel) &&
+    (root :: (rest t).map (·.1)).all (fun x => isOk (actualProximal cell.segs (lim - 1) x)) &&
     cell.groups.all (fun g => !(newGroups cell.groups.length t).any (fun n => n.id == g.id)) &&
     cell.groups.all (fun g => g.id != "")
 
-instance : DecidableEq (Except Err St) := fun a b =>
+instance {ε α : Type} [DecidableEq ε] [DecidableEq α] : DecidableEq (Except ε α) := fun a b =>
   match a, b with
   | .ok x, .ok y => if h : x = y then isTrue (by rw [h]) else isFalse (by intro e; cases e; exact h rfl)
   | .error x, .error y => if h : x = y then isTrue (by rw [h]) else isFalse (by intro e; cases e; exact h rfl)
